@@ -196,6 +196,8 @@ pub struct RefStore {
     pub items: Vec<Passkey>,
     pub disc: u8, // 0 full, 1 only non discoverable, 2 forced
     pub empty_is_err: bool,
+    /// `Some(n)`: a store of fixed capacity - saving a NEW credential into a store that holds n answers KeyStoreFull
+    pub capacity: Option<usize>,
 }
 
 fn disc_of(d: u8) -> DiscoverabilitySupport {
@@ -240,6 +242,9 @@ impl CredentialStore for RefStore {
         if let Some(slot) = self.items.iter_mut().find(|p| p.credential_id == cred.credential_id) {
             *slot = cred;
         } else {
+            if self.capacity.is_some_and(|n| self.items.len() >= n) {
+                return Err(Ctap2Error::KeyStoreFull.into());
+            }
             self.items.push(cred);
         }
         Ok(())
@@ -363,7 +368,7 @@ impl AnyStore {
             "only_non" => 1,
             _ => 2,
         };
-        let rs = |items| RefStore { items, disc, empty_is_err: v["empty_is_err"].as_bool().unwrap_or(false) };
+        let rs = |items| RefStore { items, disc, empty_is_err: v["empty_is_err"].as_bool().unwrap_or(false), capacity: v["capacity"].as_u64().map(|n| n as usize) };
         match v["kind"].as_str().unwrap() {
             "ref" => AnyStore::Ref(rs(items)),
             "memory" => AnyStore::Memory(memory_of(items)),
